@@ -289,11 +289,13 @@ _EX_ROOMS = [
     "77bbbbbbbb",
 ]
 # The module's own example (_main()) is the 10x10 board _EX_ROOMS.  The repository records no answer for it; this
-# oracle finds exactly one legal grid (_EX_ANSWER, exhaustive search over all tetromino placements).  It is NOT
-# listed in EXAMPLES because the real solver (z3 backend) answers "no solution" for it - several rooms have no
-# cell with three neighbours in the same room, so solve_lits builds fold_or([]) / count_true([]), which the z3
-# backend mistranslates.  Listing it would block the whole puzzle in validate(); instead it is the first
-# instance yielded by instances(), so the disagreement is reported as an ordinary violation.
+# oracle finds exactly one legal grid (_EX_ANSWER, exhaustive search over all tetromino placements).  It is
+# deliberately NOT listed in EXAMPLES: on trees whose z3 backend does not translate constant expressions (before
+# /repo commit "fix: z3 backend did not translate constant expressions") solve_lits answers "no solution" for it
+# - several rooms have no cell with three neighbours in the same room, so solve_lits builds fold_or([]) /
+# count_true([]).  Listing it would block the whole puzzle in validate() on such a tree and hide the defect;
+# instead it is the first instance yielded by instances(), so a disagreement is reported as an ordinary
+# violation (on a fixed tree the real solver reproduces _EX_ANSWER).
 _EX_ANSWER = [
     "....#..#..",
     "..######..",
@@ -313,7 +315,7 @@ def _example(room_rows, answer_rows):
     return inst, {(y, x): answer_rows[y][x] == "#" for y in range(inst["height"]) for x in range(inst["width"])}
 
 
-# Hand-made examples (rooms "fat" enough that the real solver is not hit by the defect above).  Uniqueness was
+# Hand-made examples (rooms "fat" enough that solve_lits builds no empty fold, so they work on either tree).  Uniqueness was
 # established by this oracle's exhaustive enumeration; the recorded answers were re-checked by hand rule by rule:
 #   A)  a a a a a     # # # . .    a: L {(0,0),(0,1),(0,2),(1,0)}   b: S {(1,2),(1,3),(2,1),(2,2)}
 #       a a b b b     # . # # .    c: L {(2,4),(3,2),(3,3),(3,4)};  a-b and b-c touch (L/S differ), a-c do not
@@ -327,3 +329,6 @@ EXAMPLES = [
     _example(["aaaaa", "aabbb", "bbbcc", "bbccc"], ["###..", "#.##.", ".##.#", "..###"]),
     _example(["aaacc", "aaccc", "cccbb", "cbbbb"], ["###..", "#.##.", ".##.#", "..###"]),
 ]
+
+# the module's own example with the oracle's unique answer (kept out of EXAMPLES, see the note above)
+REPO_EXAMPLE = [_example(_EX_ROOMS, _EX_ANSWER)]
